@@ -8,6 +8,7 @@ import ScpiVerif.Model.Readers
 import ScpiVerif.Spec.Params
 import ScpiVerif.Props.C13
 import ScpiVerif.Lemmas.Params
+import ScpiVerif.Lemmas.FieldWidths
 
 namespace ScpiVerif.Props.C05
 open ScpiVerif ScpiVerif.Ctx ScpiVerif.Lexer ScpiVerif.Spec.Params
@@ -85,5 +86,11 @@ theorem unit_accounting (c : Ctx) (cmd : Cmd) (hc : c.cur = some cmd) :
     ((∀ info, SOp.ePush Fifo.overflowCode info ∉ cmd.script) →
       (res = true ↔ errorsSince c c' = [] ∧ ok = true)) :=
   Lemmas.Params.unit_accounting c cmd hc
+
+/-- the parameter ordinal `context->input_count` (first parameter: no comma expected) is, as compiled from the current source, signed and at
+least 32 bits wide: the model's unbounded counter is exact for every unit with fewer than 2^31 parameters (widths regenerated by the translator on every run) -/
+theorem parameter_counter_wide_enough :
+    Lemmas.FieldWidths.SignedAtLeast Gen.fw_ctx_input_count 32 :=
+  Lemmas.FieldWidths.input_count
 
 end ScpiVerif.Props.C05
